@@ -66,7 +66,9 @@ def escape_once(val: str, *, environment: Environment) -> str:
     sequences.
     """
     if environment.auto_escape:
-        return Markup(val).unescape()
+        # Safe markup, so the output statement does not escape it again and applying
+        # the filter twice gives what applying it once gives.
+        return Markup(html.escape(Markup(val).unescape()))
     return html.escape(html.unescape(val))
 
 
